@@ -489,11 +489,13 @@ def finish(pid: str, tier: str, seed: int, results: List[dict], t0: float, level
         for k in stats:
             stats[k] += r.get('stats', {}).get(k, 0)
     stats['solver_time_s'] = round(stats['solver_time_s'], 3)
-    xc = {}
+    xc, tv = {}, {}
     for r in results:
         for k, v in r.get('stats', {}).items():
             if k.startswith('xcheck_'):
                 xc[k] = round(xc.get(k, 0) + v, 3)
+            if k.startswith('encoding_'):
+                tv[k] = tv.get(k, 0) + v
 
     exit_code = EXIT_OK
     violations = 0
@@ -616,6 +618,8 @@ def finish(pid: str, tier: str, seed: int, results: List[dict], t0: float, level
         explanation='bounded symbolic execution of the real panqec functions with z3; see DESIGN.md',
         per_config_wall_s={r['config']: round(r.get('wall', 0), 2) for r in results},
         engine_selftest=dict(SELFTEST),
+        translation_validation=dict(tv, rule='symbolic paths instantiated at concrete inputs and compared with the real, '
+                                    'unshimmed function (a mismatch is a harness error)') if tv else {},
         second_solver=dict(xc, rule=f'1 solver-decided unsat obligation in {os.environ.get("VERIF_XCHECK_RATE") or XCHECK_RATE.get(tier)} (hash of '
                            'configuration and obligation id) is re-decided from its SMT-LIB2 text by cvc5 '
                            f'(z3 4.8.12 binary if cvc5 cannot parse it), {XCHECK_TIMEOUT_MS} ms; a `sat` answer '
